@@ -85,7 +85,6 @@ class World:
         for i, d in enumerate(self.dsts):
             self.pending.setdefault(d, []).append([i, self.grams[i]])
         self.accepted = {d: bytearray() for d in self.pending}
-        self.expected = {d: bytearray() for d in self.pending}
         self.viols = []
         self.calls = []
         self.lastkind = {}                  # dst -> label of the previous answer for that destination
